@@ -1013,7 +1013,13 @@ func (fc *FnCtx) storedAsserts(x *ssa.Store, v Val) {
 			}
 			return inner(name)
 		}
-		want := fc.evalExpr(a.C.E, &env)
+		want, okEval := fc.tryEvalStored(a.C.E, &env)
+		if !okEval {
+			// several stores may share the anchored line (the fields of a composite literal and the assignment
+			// itself): the clause speaks about the one whose value it can be evaluated on
+			continue
+		}
+		fc.anchorsDone["storedok:"+a.Anchor] = true
 		if want.K == KBool && v.K != KBool {
 			// a predicate over `value` rather than the expected value itself
 			fc.oblige("stored", a.C.Label, want.S(), pos, &a.C)
@@ -1136,4 +1142,19 @@ func (fc *FnCtx) callSiteClauses(c *ssa.Call) {
 		f := fc.evalBool(cs.C.E, &env)
 		fc.oblige("callsite", cs.C.Label, f, c.Pos(), &cs.C)
 	}
+}
+
+// tryEvalStored evaluates a stored-at expression; ok is false when the expression does not fit the shape of
+// this store's value (e.g. selects a field of a scalar).
+func (fc *FnCtx) tryEvalStored(e Expr, env *Env) (v Val, ok bool) {
+	defer func() {
+		if r := recover(); r != nil {
+			if ve, isVC := r.(vcError); isVC && (strings.Contains(ve.msg, "field selection") || strings.Contains(ve.msg, "no field") || strings.Contains(ve.msg, "field ")) {
+				ok = false
+				return
+			}
+			panic(r)
+		}
+	}()
+	return fc.evalExpr(e, env), true
 }
